@@ -1467,6 +1467,7 @@ func init() {
 	cmds["c09-cyc"] = func(args []string) {
 		fs, _, _ := stdFlags("c09-cyc")
 		src := fs.String("src", "", "script (hex)")
+		repair := fs.String("repair", "", "script (hex) run after the first snapshot attempt; the value must then snapshot and restore")
 		_ = fs.Parse(args)
 		b, _ := hex.DecodeString(*src)
 		vm := newVM(vmCfg{OpLimit: 100000}, 1, 2, true)
@@ -1493,6 +1494,41 @@ func init() {
 				row["valok"] = true
 			}
 			_ = vm.Ret.ToString()
+		}
+		// a failed snapshot leaves nothing behind: the script repairs the value in place, the next snapshot of the same
+		// variables succeeds and restores to equal values (repeated: a pooled helper may or may not be handed out again)
+		if rb, _ := hex.DecodeString(*repair); len(rb) > 0 {
+			rerr := vm.Run(string(rb))
+			row["repair_runerr"] = rerr != nil
+			bad := ""
+			for k := 0; k < 24 && bad == ""; k++ {
+				js, e := vm.Attrs.ToJSON()
+				if e != nil {
+					bad = "snapshot after the repair failed: " + e.Error()
+					break
+				}
+				m := &ds.ValueMap{}
+				if e := json.Unmarshal(js, m); e != nil {
+					bad = "restore after the repair failed: " + e.Error()
+					break
+				}
+				vm.Attrs.Range(func(key string, v *ds.VMValue) bool {
+					w, ok := m.Load(key)
+					if !ok || !ds.ValueEqual(v, w, false) {
+						bad = "restored variable differs: " + key
+						return false
+					}
+					return true
+				})
+				// and a failing snapshot of ANOTHER cyclic value in between must not poison the next round either
+				other := ds.NewArrayVal(ds.NewIntVal(1))
+				oa, _ := other.ReadArray()
+				oa.List = append(oa.List, other)
+				om := &ds.ValueMap{}
+				om.Store("o", other)
+				_, _ = om.ToJSON()
+			}
+			row["repair_bad"] = bad
 		}
 		emit(row)
 	}
